@@ -206,7 +206,7 @@ class Explorer:
 
     # ------------------------------------------------------------ exploration
     def v(self, sig, msg, hist):
-        if len(self.viol) < 200:
+        if len(self.viol) < 200 or hist == ['SIBLINGS']:
             self.viol.append(dict(sig=sig, msg='%s | history=%s' % (msg, hist),
                                   replay_case=dict(history=list(hist), capacity=self.capacity,
                                                    wa=self.wa, kind=self.kind,
